@@ -62,7 +62,9 @@ func (g *schemaGenerator) generateRootType() error {
 	}
 
 	rootTypeName := g.getRootTypeName(g.schema, g.schemaFileName)
-	if _, ok := g.output.declsByName[rootTypeName]; ok {
+	// Only the root itself, generated earlier, makes this a repeat; another schema that was
+	// declared under the same name does not stand for it.
+	if decl, ok := g.output.declsByName[rootTypeName]; ok && decl.SchemaType == (*schemas.Type)(g.schema.ObjectAsType) {
 		return nil
 	}
 
